@@ -544,7 +544,7 @@ func TestCheck(t *testing.T) {
 	ev.Run(t, ev.Spec[Case]{
 		ID:    "C19",
 		Level: "exploration",
-		Rule: "cases run in a child process built with the race detector (GOMAXPROCS=8). Mode 'pipelines': 8-16 goroutines released by a barrier, each loading, processing and dumping its own module set (1-3 distinct generated sets with typedefs, identities, submodules, augments), 3 rounds. A third of the pipeline cases put a text with lexical errors (undefined escapes, unclosed quotes and comments; own name and wording per set) first in every set. Mode 'readers': one processed set (in a third of the cases one whose modules hold unknown groupings and types, so that entries carry errors of their own and of descendants), 8-16 goroutines each issuing the same 60 generated queries in its own shuffled order (cached entry lookup, path lookup of existing nodes with resolvable prefixes, Namespace, InstantiatingModule, FindModuleByNamespace, ReadOnly, DefaultValues, GetErrors, Path, Print), the first query of every reader being a first-time instantiating-module lookup, 4 rounds on freshly processed sets. " +
+		Rule: "cases run in a child process built with the race detector (GOMAXPROCS=8). Mode 'pipelines': 8-16 goroutines released by a barrier, each loading, processing and dumping its own module set (1-3 distinct generated sets with typedefs, identities, submodules, augments), 3 rounds. A third of the pipeline cases put a text with lexical errors (undefined escapes, unclosed quotes and comments; own name and wording per set) first in every set. Mode 'readers': one processed set (in a third of the cases one whose modules hold unknown groupings and types, so that entries carry errors of their own and of descendants), 8-16 goroutines each issuing the same 60 generated queries in its own shuffled order (cached entry lookup, path lookup of existing nodes with resolvable prefixes - from module roots and from top-level nodes written in a module or one of its submodules, absolute with the prefixes of the text holding the start node and relative to a sibling -, Namespace, InstantiatingModule, FindModuleByNamespace, ReadOnly, DefaultValues, GetErrors, Path, Print), the first query of every reader being a first-time instantiating-module lookup, 4 rounds on freshly processed sets. " +
 			"Oracle: no report from the race detector on the child's output, no panic, and every goroutine's results equal those of a sequential run on a fresh set. " +
 			"Non-trivial = at least 2 goroutines actually ran; distinct by case",
 		Assumptions: []string{
